@@ -113,7 +113,7 @@ pub fn case_strategy() -> impl Strategy<Value = Case> {
 }
 
 fn long_case_strategy() -> impl Strategy<Value = Case> {
-    (stream_in::stream_spec(70), stream_in::delivery(), 2u8..10).prop_map(|(stream, mut delivery, block)| {
+    (stream_in::stream_spec(70), stream_in::delivery(), prop_oneof![2u8..10, 12u8..16]).prop_map(|(stream, mut delivery, block)| {
         delivery.block = block;
         Case { stream, delivery }
     })
